@@ -4,7 +4,7 @@ from symx.runner import Ob
 
 ID = "C24"
 TG = "breezy.tag"
-FUNCTIONS = [TG + ":_reconcile_tags"]
+FUNCTIONS = [TG + ":_reconcile_tags", TG + ":InterTags.merge", TG + ":InterTags._merge_to"]
 STUBS = ["dict literals of the lifted module are association-list dictionaries (keys compared with ==)",
          "tag selector = table of one symbolic boolean per source tag (or no selector)"]
 ASSUMPTIONS = ["revision ids are compared only with ==, so unbounded integers stand for arbitrary ids",
